@@ -745,7 +745,7 @@ static RunResult run_preempt(const Plan& p, const RunOpts& o) {
     // ---- concurrent phase
     std::vector<TaskScript> conc; build(conc);
     size_t nblocks_before = E.blocks.size();
-    E.shadow.clear(); E.mon_violation = Violation(); E.monitor = o.monitor && have_monitor; E.shared_stores = 0;
+    E.shadow.clear(); E.mon_violation = Violation(); E.monitor = o.monitor && have_monitor && p.prop == "C20"; E.shared_stores = 0;
     Rng srng(o.sched_seed ? o.sched_seed : 1);
     std::vector<bool> started(nt, false);
     size_t qi = 0;
@@ -824,6 +824,7 @@ static RunResult run_preempt(const Plan& p, const RunOpts& o) {
     for (int k = 0; k < nt && !r.v.found; ++k) {
         auto a = transcript(conc[k]), b = transcript(solo[k]);
         for (size_t j = 0; j < a.size(); ++j) if (a[j] != b[j]) {
+            if (p.prop == "C04" && conc[k].recs[j].op.kind != OP_KEYGEN) continue;     // C04 owns what reaches the KDF during key derivation
             r.v.found = true; r.v.prop = p.prop; r.v.oracle = "S"; r.v.cls = "serial-equivalence"; r.v.op = conc[k].recs[j].idx;
             r.v.msg = strf("task %d observed under this interleaving: %s ;; alone it observes: %s", k, a[j].c_str(), b[j].c_str());
             break;
